@@ -66,7 +66,8 @@ class Atomizer:
     are normalised into ('lin', term_key, k) meaning term <= k.
     subst: dict name -> ast.expr, single-assignment temporaries to inline."""
 
-    def __init__(self, rename=None, subst=None, is_int=None, truthy_int=None):
+    def __init__(self, rename=None, subst=None, is_int=None, truthy_int=None, rewrite=None):
+        self.rewrite = rewrite or []   # [(old text, new text)] applied to atom keys (for attribute roles)
         self.rename = rename or {}
         self.subst = subst or {}
         self.is_int = is_int or (lambda e: False)
@@ -87,7 +88,10 @@ class Atomizer:
         return Tr().visit(_copy(e))
 
     def key(self, e) -> str:
-        return ast.unparse(self.inline(e))
+        k = ast.unparse(self.inline(e))
+        for a, b in self.rewrite:
+            k = k.replace(a, b)
+        return k
 
     def lin(self, e):
         e = self.inline(e)
